@@ -1281,6 +1281,25 @@ def desugar_yield_from(index):
                 blk = getattr(s, field, None)
                 if isinstance(blk, list) and blk and isinstance(blk[0], ast.stmt) and not isinstance(s, (ast.FunctionDef, ast.AsyncFunctionDef, ast.ClassDef)):
                     walk_block(blk, fn, site)
+            if isinstance(s, ast.Expr) and isinstance(s.value, ast.YieldFrom) and isinstance(s.value.value, ast.Call) and \
+                    isinstance(s.value.value.func, ast.Name) and s.value.value.func.id in ("zip", "enumerate", "sorted", "reversed", "list", "tuple", "iter"):
+                # `yield from zip(A, B)` hands on the elements of a built-in iterable one by one: `for item in zip(A, B): yield item`
+                var = "_yielded"
+                names = {x.id for x in ast.walk(fn) if isinstance(x, ast.Name)}
+                k_ = 0
+                while var in names:
+                    k_ += 1
+                    var = f"_yielded{k_}"
+                new = ast.For(target=ast.Name(id=var, ctx=ast.Store()), iter=s.value.value,
+                              body=[ast.Expr(value=ast.Yield(value=ast.Name(id=var, ctx=ast.Load())))], orelse=[], type_comment=None)
+                ast.copy_location(new, s)
+                ast.fix_missing_locations(new)
+                for n in ast.walk(new):
+                    if not hasattr(n, "lineno"):
+                        n.lineno = s.lineno
+                stmts[stmts.index(s)] = new
+                done[site] = done.get(site, 0) + 1
+                continue
             if not (isinstance(s, ast.Expr) and isinstance(s.value, ast.YieldFrom) and isinstance(s.value.value, (ast.GeneratorExp, ast.ListComp))):
                 continue
             comp = s.value.value
